@@ -1,5 +1,5 @@
 From Coq Require Import List.
-From VV Require Import Sched.Model Sched.Defs Sched.Inv Sched.ProofsC01.
+From VV Require Import Sched.Model Sched.Defs Sched.Inv Sched.ProofsC01 Sched.EnvApply Sched.EnvApplyProofs.
 
 Theorem C01_start_after_deps :
   forall c e0 st0 clk s w t t0,
@@ -14,3 +14,39 @@ Theorem C01_start_after_deps :
               /\ (has_upd (oc c d) = true -> ever (env s d) = Some (started s d)))).
 Proof. exact start_after_deps. Qed.
 Print Assumptions C01_start_after_deps.
+
+(* ---- the content of the update: Env.apply as WorkerThread.publish uses it (model Sched/EnvApply.v) ---- *)
+
+(* what EVERY path reads after a successful apply *)
+Theorem C01_apply_spec :
+  forall u old e', wf (Dict u) = true -> merge (Dict u) (Dict old) = Some e' ->
+  forall p, get_path e' p = spec (Dict u) (Dict old) p.
+Proof. exact apply_spec_dict. Qed.
+Print Assumptions C01_apply_spec.
+
+(* the complete update is readable: every leaf of the update is read at the same path *)
+Theorem C01_update_readable :
+  forall p u old e' n, wf u = true -> merge u old = Some e' ->
+  get_path u p = Some (Leaf n) -> get_path e' p = Some (Leaf n).
+Proof. exact update_readable. Qed.
+Print Assumptions C01_update_readable.
+
+(* nothing else changes: a path that leaves the update reads what it read before *)
+Theorem C01_apply_frame :
+  forall p u old e', wf u = true -> merge u old = Some e' ->
+  untouched u p = true -> get_path e' p = get_path old p.
+Proof. exact apply_frame. Qed.
+Print Assumptions C01_apply_frame.
+
+(* the call raises iff a non-empty dictionary of the update meets a leaf of the environment *)
+Theorem C01_apply_fails_only_on_leaf_clash :
+  forall u old, wf u = true ->
+  (merge u old = None <->
+   exists p x l m, get_path u p = Some (Dict (x :: l)) /\ get_path old p = Some (Leaf m)).
+Proof. exact apply_fails_only_on_leaf_clash. Qed.
+Print Assumptions C01_apply_fails_only_on_leaf_clash.
+
+Theorem C01_apply_idempotent :
+  forall u old e', wf u = true -> merge u old = Some e' -> merge u e' = Some e'.
+Proof. exact apply_idempotent. Qed.
+Print Assumptions C01_apply_idempotent.
